@@ -64,6 +64,44 @@ pub fn solo_fresh_process(inst: &Instance) -> Result<Vec<String>, String> {
     serde_json::from_slice(&out.stdout).map_err(|e| e.to_string())
 }
 
+/// traces of a whole scenario (instances constructed in order, then advanced round-robin) run in
+/// ONE fresh child process: the scenario's own construction order decides the order in which
+/// anything process-wide gets initialised
+pub fn scenario_fresh_process(insts: &[Instance]) -> Result<Vec<Vec<String>>, String> {
+    use std::io::Write;
+    let exe = std::env::current_exe().map_err(|e| e.to_string())?;
+    let mut child = Command::new(exe).arg("--scenario-trace").stdin(std::process::Stdio::piped()).stdout(std::process::Stdio::piped()).stderr(std::process::Stdio::null()).spawn().map_err(|e| e.to_string())?;
+    child.stdin.take().unwrap().write_all(serde_json::to_string(insts).unwrap().as_bytes()).map_err(|e| e.to_string())?;
+    let out = child.wait_with_output().map_err(|e| e.to_string())?;
+    if !out.status.success() {
+        return Err(format!("child exited with {:?}", out.status));
+    }
+    serde_json::from_slice(&out.stdout).map_err(|e| e.to_string())
+}
+
+fn round_robin(insts: &[Instance]) -> Vec<Vec<String>> {
+    let k = insts.len();
+    let mut gens: Vec<Box<dyn Gen>> = insts.iter().map(|i| i.spec.build()).collect();
+    let mut traces: Vec<Vec<String>> = vec![Vec::new(); k];
+    let longest = insts.iter().map(|i| i.ops.len()).max().unwrap_or(0);
+    for step in 0..longest {
+        for i in 0..k {
+            if step < insts[i].ops.len() {
+                traces[i].push(apply(&mut *gens[i], &insts[i].ops[step]).map(|v| fmt_val(&v)).unwrap_or_default());
+            }
+        }
+    }
+    traces
+}
+
+pub fn scenario_trace_main() {
+    let mut text = String::new();
+    use std::io::Read;
+    std::io::stdin().read_to_string(&mut text).expect("stdin");
+    let insts: Vec<Instance> = serde_json::from_str(&text).expect("scenario json");
+    println!("{}", serde_json::to_string(&round_robin(&insts)).unwrap());
+}
+
 /// entry point of the child process
 pub fn solo_trace_main() {
     let mut text = String::new();
@@ -79,16 +117,9 @@ pub fn solo_trace_main() {
 /// produce the traces that each produces alone in a fresh process
 pub fn check_fresh(c: &FreeCase) -> CheckResult {
     let k = c.instances.len();
-    let mut gens: Vec<Box<dyn Gen>> = c.instances.iter().map(|i| i.spec.build()).collect();
-    let mut traces: Vec<Vec<String>> = vec![Vec::new(); k];
-    let longest = c.instances.iter().map(|i| i.ops.len()).max().unwrap_or(0);
-    for step in 0..longest {
-        for i in 0..k {
-            if step < c.instances[i].ops.len() {
-                traces[i].push(apply(&mut *gens[i], &c.instances[i].ops[step]).map(|v| fmt_val(&v)).unwrap_or_default());
-            }
-        }
-    }
+    // workers == 1: the scenario runs inside this long-lived checker process; otherwise in a
+    // fresh child process of its own
+    let traces = if c.workers == 1 { round_robin(&c.instances) } else { scenario_fresh_process(&c.instances).map_err(|e| Fail::inconclusive("C19:child-process", e))? };
     for i in 0..k {
         let want = solo_fresh_process(&c.instances[i]).map_err(|e| Fail::inconclusive("C19:child-process", e))?;
         if want != traces[i] {
@@ -97,7 +128,7 @@ pub fn check_fresh(c: &FreeCase) -> CheckResult {
                 .exp_act(want.get(p), traces[i].get(p)));
         }
     }
-    Ok(CaseInfo::new(k >= 2).class(format!("instances:{}", k.min(8))).class_if(c.instances.iter().any(|i| matches!(&i.spec, GenSpec::Det { ctor: crate::ops::Ctor::Seed(s), .. } if s.is_zero())), "has-zero-seed"))
+    Ok(CaseInfo::new(k >= 2).class(format!("instances:{}", k.min(8))).class(if c.workers == 1 { "scenario-in-checker-process" } else { "scenario-in-fresh-process" }).class_if(c.instances.iter().any(|i| matches!(&i.spec, GenSpec::Det { ctor: crate::ops::Ctor::Seed(s), .. } if s.is_zero())), "has-zero-seed"))
 }
 
 enum Job {
@@ -488,8 +519,22 @@ pub fn def(ctx: &Ctx) -> PropDef {
         for part in 0..t.pick(1, 4) {
             subs.push(PSub::boxed(
                 format!("fresh-process/{}", part),
-                t.pick(60, 1500),
-                || (instances(6, 8), Just(1usize), Just(1usize)).prop_map(|(instances, workers, repeats)| FreeCase { instances, workers, repeats }).boxed(),
+                t.pick(120, 1500),
+                || {
+                    (instances(6, 8), 1usize..=2, proptest::collection::vec(any::<bool>(), 8))
+                        .prop_map(|(mut instances, workers, zero)| {
+                            // zero seeds are the classic trigger of lazily initialised replacements
+                            for (i, inst) in instances.iter_mut().enumerate() {
+                                if zero[i % 8] && i % 2 == 0 {
+                                    if let GenSpec::Det { ty, ctor } = &mut inst.spec {
+                                        *ctor = crate::ops::Ctor::Seed(crate::ops::SeedBytes { class: "zero".into(), bytes: vec![0u8; ty.info().seed_len] });
+                                    }
+                                }
+                            }
+                            FreeCase { instances, workers, repeats: 1 }
+                        })
+                        .boxed()
+                },
                 check_fresh,
             ));
         }
@@ -504,7 +549,7 @@ pub fn def(ctx: &Ctx) -> PropDef {
     }
     PropDef {
         id: "C19",
-        rule: "scenario = up to 6 generator instances (types drawn from the 19 deterministic types + scripted JitterRng, with deliberate repeats: identical twins, same seed with another history, same type with another seed; zero seeds; scripted JitterRng also with the round count new_with_timer starts with, after a real-clock JitterRng::new() earlier in the checker process; construction is part of the history and happens on the scheduled thread) + a generated schedule of (instance, worker thread) pairs over 1..4 real OS threads: a coordinator hands the boxed generator and one operation to the scheduled worker and gets both back, so exactly one operation runs at a time and the interleaving, including migrations between threads, is the generated one. Oracle: every instance's trace equals its solo replay in a fresh thread, executed both before and after the interleaved run. Free-running mode: instances partitioned over 2..8 unsynchronised threads, repeated. Fresh-process mode: the traces of instances created and advanced round-robin inside the long-lived checker process (where thousands of other generators were created before) must equal the traces each instance produces alone in a freshly spawned child process, so process-wide lazily initialised state cannot hide. Seed-pair enumeration: for one base seed per type and run, every seed that differs from it in exactly one or two bits (32 896 pairs for 32-byte seeds) is constructed right after the base seed\u{2019}s generator and must equal the same generator constructed after an unrelated one. Static part: a probe crate asserting Send + Sync for every type is compiled against the current tree. Non-trivial = >= 2 instances of the same type advanced alternately and >= 1 thread migration; distinct by hash of the scenario.".into(),
+        rule: "scenario = up to 6 generator instances (types drawn from the 19 deterministic types + scripted JitterRng, with deliberate repeats: identical twins, same seed with another history, same type with another seed; zero seeds; scripted JitterRng also with the round count new_with_timer starts with, after a real-clock JitterRng::new() earlier in the checker process; construction is part of the history and happens on the scheduled thread) + a generated schedule of (instance, worker thread) pairs over 1..4 real OS threads: a coordinator hands the boxed generator and one operation to the scheduled worker and gets both back, so exactly one operation runs at a time and the interleaving, including migrations between threads, is the generated one. Oracle: every instance's trace equals its solo replay in a fresh thread, executed both before and after the interleaved run. Free-running mode: instances partitioned over 2..8 unsynchronised threads, repeated. Fresh-process mode: the traces of instances created and advanced round-robin inside the long-lived checker process (where thousands of other generators were created before) must equal the traces each instance produces alone in a freshly spawned child process, so process-wide lazily initialised state cannot hide; in half of these cases the whole scenario itself runs in a fresh child process of its own, so that its own construction order decides the initialisation order of anything process-wide (zero seeds are frequent here). Seed-pair enumeration: for one base seed per type and run, every seed that differs from it in exactly one or two bits (32 896 pairs for 32-byte seeds) is constructed right after the base seed\u{2019}s generator and must equal the same generator constructed after an unrelated one. Static part: a probe crate asserting Send + Sync for every type is compiled against the current tree. Non-trivial = >= 2 instances of the same type advanced alternately and >= 1 thread migration; distinct by hash of the scenario.".into(),
         explanation: None,
         assumptions: vec![
             "interleavings inside one operation are not enumerated (the crates contain no synchronisation primitives to instrument)".into(),
